@@ -30,7 +30,7 @@ func init() {
 			{ID: "C02-R7", Title: "the dispatch loop keeps no stale copy of the frame's locals", Floor: 1, Run: dispatchUsesLiveFrameState},
 			{ID: "C02-R8", Title: "sibling sites agree on the inline/heap boundary of frame locals", Floor: 1, Run: func(c *core.Ctx) { boundaryAgreement(c, "vm") }},
 			{ID: "C02-R9", Title: "declared names bind in the current scope", Floor: 3, Run: bindingDoesNotFallBackOutward},
-			{ID: "C02-R10", Title: "frame locals are written only by the frame and the dispatch function", Floor: 2, Run: localsWrittenOnlyByOwners},
+			{ID: "C02-R10", Title: "frame locals are written only by the frame and the dispatch function", Floor: 1, Run: localsWrittenOnlyByOwners},
 			{ID: "C02-R11", Title: "derived constructors copy every field", Floor: 1, Run: derivedConstructorsCopyEveryField},
 			{ID: "C02-R12", Title: "cells are made by the VM only", Floor: 1, Run: cellsAreMadeByTheVM},
 			{ID: "C02-R13", Title: "cells point into the activation's captured locals", Floor: 1, Run: cellsPointIntoFrameStorage},
